@@ -62,6 +62,39 @@ class Check(PropertyCheck):
             if cmp == "different":
                 dis.append(Disagreement("back end bytes", {"input": c[0], "input_hex": hx(c[0]), "settings": c[1].describe(),
                                                           "entry": str(c[2])}, r["model"][:300], r["impl"][:300]))
+        dis += self.style_sheet_correspondence()
+        return dis
+
+    def style_sheet_correspondence(self):
+        """the base style sheet: rendered by the model from the REGENERATED rules of the `jss!` block and the settings,
+        compared with the sheet the implementation emits"""
+        dis = []
+        # the captured sheet went through the escape of the style element, so strings with markup characters or with
+        # characters XML cannot carry are left to the whole-document comparison
+        plain = [x for x in STRS + ["a\"b", "x y, z", "一", "url(#g)", "transparent", "#0af"]
+                 if all(c not in "<>&" and (" " <= c <= "~" or c == "一") for c in x)]
+        sts = [backend.Settings(), backend.Settings(sw=1e-3, fs=0, ff="x y", fill="", bg="a;b}", sc="rgb(1,2,3)")]
+        sts += [backend.Settings(sw=self.rng.choice([2, 1, 3.5, 0.25, 10, 2.125]), fs=self.rng.choice([14, 9, 30, 1, 100]),
+                                 ff=self.rng.choice(plain), fill=self.rng.choice(plain),
+                                 bg=self.rng.choice(plain), sc=self.rng.choice(plain))
+                for _ in range(self.scale(30, 300))]
+        toks = [st.impl_token() for st in sts]
+        css0 = common.run_impl("css0", ["%d %s" % (i, t) for i, t in enumerate(toks)], nproc=1)
+        fmt = common.run_impl("stylefmt", ["%d %s" % (i, t) for i, t in enumerate(toks)], nproc=1)
+        lines = []
+        for i, st in enumerate(sts):
+            f = fmt[str(i)].split(" ")
+            if len(f) != 2:
+                f = ["-", "-"]
+            lines.append("%d %s %s %s %s %s %s" % (i, hx(st.sc), f[0], hx(st.bg), hx(st.fill), hx(st.ff), f[1]))
+        mod = common.run_model("css", lines, nproc=1)
+        for i, st in enumerate(sts):
+            self.evaluations += 1
+            if mod.get(str(i)) != css0.get(str(i)):
+                dis.append(Disagreement("base style sheet (regenerated rules of the jss! block)", {"settings": st.describe()},
+                                        unhx(mod.get(str(i), "-"))[:300] if mod.get(str(i), "").strip("-") else mod.get(str(i), ""),
+                                        unhx(css0.get(str(i), "-"))[:300] if css0.get(str(i), "").strip("-") else css0.get(str(i), "")))
+        self.count("style_sheets_compared", len(sts))
         return dis
 
     def oracle(self, texts):
